@@ -136,9 +136,7 @@ unsafe impl<L: Lockable> RawLock for RetryingLockCollection<L> {
 	unsafe fn raw_unlock_write(&self) {
 		let locks = get_locks_unsorted(&self.data);
 
-		for lock in locks {
-			lock.raw_unlock_write();
-		}
+		utils::unlock_all_writes(&locks)
 	}
 
 	unsafe fn raw_read(&self) {
@@ -226,9 +224,7 @@ unsafe impl<L: Lockable> RawLock for RetryingLockCollection<L> {
 	unsafe fn raw_unlock_read(&self) {
 		let locks = get_locks_unsorted(&self.data);
 
-		for lock in locks {
-			lock.raw_unlock_read();
-		}
+		utils::unlock_all_reads(&locks)
 	}
 }
 
